@@ -196,7 +196,7 @@ public:
       g_world->recs.push_back(r);
     }
   }
-  std::function<void(int /*nth write*/)> on_write; // fault injection hook (may throw)
+  std::function<void(int /*nth write*/, std::string_view /*message*/)> on_write; // fault injection hook (may throw)
   std::function<void(int /*nth flush*/)> on_flush;
   int writes{0}, flushes{0};
 
@@ -206,7 +206,7 @@ public:
   {
     ++writes;
     _dirty = true;
-    if (on_write) on_write(writes);
+    if (on_write) on_write(writes, msg);
     g_world->recs.push_back(Rec{_id, std::string(logger), static_cast<int>(level), std::string(msg), std::string(statement), ts,
                                 std::string(thread_id), g_ctl->step, false, false});
   }
